@@ -1,7 +1,7 @@
 (* C19 — Multipart codec round trip, truthful size, reader termination.
    Only statements; each closed by `exact` of a lemma proved in Proofs/. *)
 From AV Require Import Lib.Base Lib.BytesX Generated.MultipartGen Model.Multipart Model.MultipartSpec
-  Proofs.MultipartSize Proofs.MultipartTerm Proofs.MultipartRoundtrip Proofs.MultipartBase64 Proofs.MultipartWindow Proofs.MultipartLimits.
+  Proofs.MultipartSize Proofs.MultipartTerm Proofs.MultipartRoundtrip Proofs.MultipartBase64 Proofs.MultipartWindow Proofs.MultipartLimits Proofs.MultipartReadline.
 Open Scope N_scope.
 
 (* ------------------------------------------------------------------ truthful size *)
@@ -153,7 +153,28 @@ Example C19_termination_hypotheses :
 Proof. vm_compute. split; [right; discriminate | reflexivity]. Qed.
 Print Assumptions C19_termination_hypotheses.
 
-(*READLINE-TERMINATION*)
+(* The readline API (after fix 5a38184, which gave readline() the EOF guard read_chunk() has): one readline() call in
+   ANY part state over ANY stream state raises, reaches at_eof, or strictly decreases
+   8 * (2 * bytes left in the stream + bytes held in _unread) + 2 * (3 - _content_eof) + [stream not at EOF] ... *)
+Theorem C19_readline_progress : forall p s d p' s',
+  p_at_eof p = false -> part_readline p s = Ok (d, p', s') ->
+  p_at_eof p' = true \/ rl_measure p' s' < rl_measure p s.
+Proof. exact part_readline_progress. Qed.
+Print Assumptions C19_readline_progress.
+
+(* ... so `while not part.at_eof(): await part.readline()` ends, on every input (this statement was REFUTED before
+   the fix: at stream EOF readline() returned b"" forever) *)
+Theorem C19_readline_loop_terminates : forall fuel count bounded acc p s,
+  (N.to_nat (rl_measure p s) < fuel)%nat -> lines_loop fuel count bounded acc p s <> Err EFuel.
+Proof. exact lines_loop_terminates. Qed.
+Print Assumptions C19_readline_loop_terminates.
+
+(* the former refutation witness (a part on an exhausted stream): the loop now ends with ValueError; regression case
+   corpus/C19/fixed-readline_loop_at_eof.json *)
+Example C19_readline_loop_at_eof_fixed :
+  lines_loop 10 0 false [] (new_part [45; 45; 66] None false 0) (s_init [] true 100) = Err EValue.
+Proof. vm_compute. reflexivity. Qed.
+Print Assumptions C19_readline_loop_at_eof_fixed.
 
 (* ------------------------------------------------------------------ base64 quartet alignment *)
 
